@@ -394,7 +394,23 @@ func runC06(c *Ctx) {
 				}
 				n++
 				call, isCall := strip(next).(*ssa.Call)
-				okF := isCall && calleeOf(call) != nil && calleeOf(call).Pkg() != nil && calleeOf(call).Pkg().Path() == modPrefix+"/internal/fanoutconsumer"
+				isFan := func(cl *ssa.Call) bool {
+					return calleeOf(cl) != nil && calleeOf(cl).Pkg() != nil && calleeOf(cl).Pkg().Path() == modPrefix+"/internal/fanoutconsumer"
+				}
+				okF := isCall && isFan(call)
+				if isCall && !okF {
+					// a local helper all of whose returns are fan-out constructor results
+					if cf := staticCalleeFn(call); cf != nil && cf.Pkg == fn.Pkg && len(cf.Blocks) > 0 {
+						all := true
+						for _, r := range returnsOf(cf) {
+							rc, ok := strip(resultsOf(r)[0]).(*ssa.Call)
+							if !ok || !isFan(rc) {
+								all = false
+							}
+						}
+						okF = all
+					}
+				}
 				c.Check(okF, fmt.Sprintf("receiver node: %s receives the fan-out consumer", calleeOf(ci).Name()), p.Pos(ci.Pos()), "argument is fanoutconsumer.New*(all next consumers)", "on some path the receiver is given a next consumer directly instead of the fan-out wrapper: a read-only payload (e.g. from a shared receiver) reaches a mutating pipeline without being cloned, the processor panics or corrupts shared data")
 			}
 		}
@@ -482,6 +498,41 @@ func runC06Caps(c *Ctx) {
 				}
 			}
 			visit(capArg)
+			// the fan-out's own capability enters unconditionally: some store to MutatesData in this function takes the
+			// field straight out of a Capabilities() result of the fan-out node's consumer (no `&&`, no length test)
+			direct := false
+			for _, f := range withAnon(fn) {
+				allInstrs(f, func(in ssa.Instruction) {
+					st, ok := in.(*ssa.Store)
+					if !ok {
+						return
+					}
+					fa, ok := st.Addr.(*ssa.FieldAddr)
+					if !ok || derefStruct(fa.X.Type()) == nil || derefStruct(fa.X.Type()).Field(fa.Field).Name() != "MutatesData" {
+						return
+					}
+					var base ssa.Value
+					switch x := st.Val.(type) {
+					case *ssa.Field:
+						base = x.X
+					case *ssa.UnOp:
+						if fa2, ok := x.X.(*ssa.FieldAddr); ok {
+							base = fa2.X
+						}
+					}
+					if base == nil {
+						return
+					}
+					for w := range backSlice(base) {
+						if fa3, ok := w.(*ssa.FieldAddr); ok && derefStruct(fa3.X.Type()) != nil && derefStruct(fa3.X.Type()).Field(fa3.Field).Name() == "fanOutNode" {
+							direct = true
+						}
+					}
+				})
+			}
+			if strings.Contains(fnName(fn), "buildComponents") || fan {
+				c.Check(direct, "pipeline capability takes the fan-out node's capability as it is: "+site, p.Pos(ci.Pos()), "MutatesData = fanOutNode.consumer.Capabilities().MutatesData", "the exporter stage's share of the pipeline capability is not the fan-out consumer's own capability but something derived under extra conditions (e.g. only for a single exporter): a pipeline whose exporters all mutate advertises read-only although one of them still receives the original payload")
+			}
 			c.Check(fan && procs, "pipeline capability aggregates fan-out and all processors: "+site, p.Pos(ci.Pos()), "depends on fanOutNode consumer and every processor", fmt.Sprintf("depends on fan-out=%v, on processors=%v: a receiver feeding several pipelines would share data with a mutating pipeline", fan, procs))
 		}
 	}
@@ -514,6 +565,36 @@ func runC06Caps(c *Ctx) {
 					}
 				}
 			}
+			// the option must come last (it overrides an exporter's own WithCapabilities): x = append(x, opt), never append([]{opt}, x...)
+			last := false
+			if cv, ok := ci.(ssa.Value); ok {
+				for _, f := range withAnon(fn) {
+					allInstrs(f, func(in ssa.Instruction) {
+						ap, ok := in.(*ssa.Call)
+						if !ok || builtinName(ap) != "append" || len(ap.Call.Args) != 2 {
+							return
+						}
+						els, _ := variadicElems(ap.Call.Args[1])
+						inTail := false
+						for _, e := range els {
+							if strip(e) == cv {
+								inTail = true
+							}
+						}
+						inHead := false
+						hels, _ := variadicElems(ap.Call.Args[0])
+						for _, e := range hels {
+							if strip(e) == cv {
+								inHead = true
+							}
+						}
+						if inTail && !inHead {
+							last = true
+						}
+					})
+				}
+			}
+			c.Check(last, "exporter helper's MutatesData option is appended behind the exporter's own options", p.Pos(ci.Pos()), "append(options, WithCapabilities(MutatesData: true))", "the option is not appended last: an exporter that passes WithCapabilities(MutatesData:false) itself (as the OTLP exporters do) keeps advertising read-only although its batcher merges and splits the payload – behind a fan-out it is handed shared read-only data and MergeSplit panics with `invalid access to shared data`")
 			c.Check(depB && depQ, "exporter helper declares MutatesData when batching is enabled either way", p.Pos(ci.Pos()), "condition depends on batcherCfg.Enabled and queueCfg.Batch", fmt.Sprintf("depends on legacy batcher config=%v, on queue batch config=%v: a batching exporter would merge/split shared read-only data", depB, depQ))
 		}
 		if !found {
